@@ -84,7 +84,8 @@ def model_input(scheds, path):
                 f.write("P\t%s\t%s\n" % (s.idx, "\t".join(pre)))
             for n, lbl, obs in s.acts:
                 f.write("A\t%s\t%s\t%s\t%s\n" % (s.idx, n, lbl, obs))
-            nscript = len([l for l in s.script if not l.startswith(("skew ", "seq0 "))])
+            nscript = len([l for l in s.script if not l.startswith(("skew ", "seq0 "))]) \
+                + len([l for l in s.script if l.startswith("early ")])  # (an early hand-over is recorded as two actions)
             if s.status and s.status.startswith("died") and nscript == len(s.acts) + 1 \
                     and s.script[-1].startswith("step rx"):
                 n = str(len(s.acts))
@@ -285,6 +286,7 @@ def evaluate(ctx, prop, scheds, m, mf, stats, tag, hb=None):
             stats["longest_run_of_such_sends"] = max(stats["longest_run_of_such_sends"], int(x.get("bumpmax", 0)))
             stats["lock_probes"] += int(x.get("probes", 0))
             stats["lock_probes_blocked"] += int(x.get("blocked", 0))
+            stats["handovers_tried_before_the_caller_listened"] += int(x.get("early", 0))
             stats["server_messages_sent_while_a_sender_is_at_wire"] += int(x.get("wiresrv", 0))
             stats["messages_processed_while_a_caller_is_at_wire"] += int(x.get("wiredeliver", 0))
             stats["server_seq_nos_with_top_bit_set"] += int(x.get("highseq", 0))
